@@ -188,6 +188,8 @@ def future_stubs(E, futures):
                 v = v.fs[0]
             else:
                 break
+        if isinstance(v, X.Cor):
+            return NotImplemented          # a real async block: the engine runs its own poll function
         if not (isinstance(v, X.Adt) and v.name == 'ReadyFuture'):
             raise X.Unsupported('poll of an unknown future %r' % (v,))
         return ready(v.fs[0])
